@@ -103,6 +103,31 @@ pub fn m_aeskeygenassist<const IMM8: i32>(a: __m128i) -> __m128i {
     from_u(u128::from_le_bytes(o))
 }
 
+// ---- two-phase variants for the batch harnesses (uf.rs uf1ab!): the single-block reference runs in phase A (logged), the
+// multi-block subject in phase B (each call constrained against the phase-A log only)
+uf1ab!(ab_enc, u128, u128, c_enc);
+uf1ab!(ab_last, u128, u128, c_last);
+uf1ab!(ab_dec, u128, u128, c_dec);
+uf1ab!(ab_declast, u128, u128, c_declast);
+pub fn ab_phase_b() {
+    ab_enc::phase_b();
+    ab_last::phase_b();
+    ab_dec::phase_b();
+    ab_declast::phase_b();
+}
+pub fn mab_aesenc(a: __m128i, round_key: __m128i) -> __m128i {
+    from_u(ab_enc::call(to_u(a)) ^ to_u(round_key))
+}
+pub fn mab_aesenclast(a: __m128i, round_key: __m128i) -> __m128i {
+    from_u(ab_last::call(to_u(a)) ^ to_u(round_key))
+}
+pub fn mab_aesdec(a: __m128i, round_key: __m128i) -> __m128i {
+    from_u(ab_dec::call(to_u(a)) ^ to_u(round_key))
+}
+pub fn mab_aesdeclast(a: __m128i, round_key: __m128i) -> __m128i {
+    from_u(ab_declast::call(to_u(a)) ^ to_u(round_key))
+}
+
 // ---- fully concrete intrinsic models (C17: the round functions themselves are the subject, nothing is abstracted)
 pub fn c_aesenc(a: __m128i, round_key: __m128i) -> __m128i {
     from_u(c_enc(to_u(a)) ^ to_u(round_key))
@@ -112,6 +137,27 @@ pub fn c_aesdec(a: __m128i, round_key: __m128i) -> __m128i {
 }
 pub fn c_aesimc(a: __m128i) -> __m128i {
     from_u(c_imc(to_u(a)))
+}
+
+// ---- models with the S-box an uninterpreted bijection pair (hazmat::mix_columns on the intrinsics arm is AESDECLAST then
+// AESENC with zero keys: the S-box cancels against its inverse, which a solver cannot see through two concrete 256-entry
+// tables composed sixteen times, but which is exactly the bijection axiom; ShiftRows / MixColumns stay concrete)
+cuf_bij!(bij_sb, vuf_ni_bij_sb_f, vuf_ni_bij_sb_i, u8, ra::sbox, ra::inv_sbox);
+fn bij_fwd(b: u8) -> u8 {
+    bij_sb::fwd(b)
+}
+fn bij_inv(b: u8) -> u8 {
+    bij_sb::inv(b)
+}
+pub fn b_aesenc(a: __m128i, round_key: __m128i) -> __m128i {
+    let s = to_u(a).to_le_bytes();
+    let r = ra::mix_columns(&ra::shift_rows(&ra::sub_bytes_with(&s, &bij_fwd)));
+    from_u(u128::from_le_bytes(r) ^ to_u(round_key))
+}
+pub fn b_aesdeclast(a: __m128i, round_key: __m128i) -> __m128i {
+    let s = to_u(a).to_le_bytes();
+    let r = ra::sub_bytes_with(&ra::inv_shift_rows(&s), &bij_inv);
+    from_u(u128::from_le_bytes(r) ^ to_u(round_key))
 }
 
 // ---- CPUID model: every leaf answers with the same register pattern, chosen by the harness before the first use.
